@@ -118,6 +118,12 @@ def check(run, project):
         c15.f5(RuleView(run, "F5", "S8"), project, L)
     except AnalysisError as ex:
         run.info(f"S8: the front-ends' message cutting could not be followed ({ex}); not judged here (C15 reports it)")
+    # S9 (= C15-F6): ... and by the swtpm-log scanner: every SWTPM_IO record is one message (a record that directly follows
+    # another record's payload included)
+    try:
+        c15.f6(RuleView(run, "F6", "S9"), project)
+    except AnalysisError as ex:
+        run.info(f"S9: the swtpm-log scanner could not be followed ({ex}); not judged here (C15 reports it)")
     # ... and there is such an end: when the input ends after a complete message the stream walker has already announced the
     # next message's root; without the pump's silent return at that point every stream would end in a depleted error
     from .. import pump as _pump
